@@ -280,6 +280,20 @@ def dist2 : Point → Point → Rat
   | _, [] => 0
   | a :: as, b :: bs => (a - b) * (a - b) + dist2 as bs
 
+/-- standard inner product -/
+def dot : Point → Point → Rat
+  | [], _ => 0
+  | _, [] => 0
+  | a :: as, b :: bs => a * b + dot as bs
+
+/-- `PolynomialKernel(degree, offset)`: `(<x,y> + offset)^degree` -/
+def polyKernel (degree : Nat) (offset : Rat) (x y : Point) : Rat := (dot x y + offset) ^ degree
+
+/-- `AbstractKernelFunction::featureDistanceSqr` of a kernel that is not normalised: the squared
+distance of the feature-space images, `k(x,x) - 2 k(x,y) + k(y,y)` (the metric of a `KHCTree`, of
+`IterativeNNQuery` on a tree with a kernel, and of `SimpleNearestNeighbors`). -/
+def featureDist2 (k : Point → Point → Rat) (x y : Point) : Rat := k x x - 2 * k x y + k y y
+
 /-- insertion into a list sorted by key, before equal keys (so that `sortBy`,
 which inserts from the right, is stable) -/
 def insertBy (key : Nat → Rat) (x : Nat) : List Nat → List Nat
